@@ -317,6 +317,9 @@ class SliceInfo:
                         self.prims.append((b, bi, t))
                     else:
                         self.calls.append((b, bi, t))
+                    # `a..=b` is a call, not an aggregate
+                    if any("ops::range::RangeInclusive" in n and n.endswith("::new") for n in names):
+                        self.ranges.append((b, bi, "t"))
                     for o in t["args"]:
                         if o["k"] == "const" and "v" in o and o["ty"] not in ("()",):
                             self.literals.append((b, bi, "t", o))
